@@ -665,7 +665,14 @@ class Interp:
                 if closure_defaults and p in closure_defaults:
                     env[p] = closure_defaults[p]
                 elif p in defaults:
-                    env[p] = self.const_expr(defaults[p])
+                    if (fn.qualname, p) in getattr(self.program, 'sound_memos', ()) and \
+                            isinstance(defaults[p], ast.Dict) and not defaults[p].keys:
+                        # a table the purity rule found to be a sound memo (what is stored under
+                        # a key depends on the key alone): a hit returns what a miss computes,
+                        # so the miss paths - the empty table - cover every result
+                        env[p] = DictV(())
+                    else:
+                        env[p] = self.const_expr(defaults[p])
                 else:
                     env[p] = Sym.var(p)
         caller_env = st.env
@@ -1250,6 +1257,7 @@ class Interp:
                         starts.append(s2)
                     else:
                         exit_states.append(s2)
+        again = []
         for s1 in starts:
             for out in self.exec_block(node.body, s1):
                 if out.kind in ('return', 'raise'):
@@ -1262,6 +1270,36 @@ class Interp:
                     for f in fields:
                         s2.fields[('self', f)] = s.fields[('self', f)]
                     exit_states.append(s2)
+                    if out.kind != 'break' and s2.fields != s.fields:
+                        again.append(s2)
+        # an iteration changed object state through a callee (fields the loop itself never
+        # assigns, e.g. the error latch): the next iteration starts from *that* state - traverse
+        # the body once more from each such state so that cross-iteration order is represented
+        for s2 in again[:200]:
+            if isinstance(node, ast.For):
+                elem2 = Opaque('elem\'@%d' % node.lineno,
+                               (iter_value,) if iter_value is not None else ())
+                starts2 = list(self.assign(node.target, elem2, s2))
+            else:
+                starts2 = []
+                for c, s3 in self.ev_cond(test, s2):
+                    if s3.raised:
+                        yield from self._raise_or(s3, None)
+                        continue
+                    for b, s4 in self.branch(c, s3):
+                        if b:
+                            starts2.append(s4)
+            for s3 in starts2:
+                for out in self.exec_block(node.body, s3):
+                    if out.kind in ('return', 'raise'):
+                        yield out
+                    else:
+                        s4 = out.state.copy()
+                        for n in assigned:
+                            s4.env[n] = s.env[n]
+                        for f in fields:
+                            s4.fields[('self', f)] = s.fields[('self', f)]
+                        exit_states.append(s4)
         seen = set()
         for s3 in exit_states:
             key = (s3.effects, s3.path)
@@ -1357,6 +1395,10 @@ class Interp:
             if not any(k == i for k, _ in o.items):
                 d.append((i, v))
             return DictV(tuple(d))
+        if isinstance(o, DictV) and not isinstance(i, (Opaque, tuple)) and (
+                not o.items or (len(o.items) == 1 and o.items[0][0] == i)):
+            # a symbolic key into an empty table / onto the one entry with the same key
+            return DictV(((i, v),))
         return Opaque('havoc:%s@%d' % (tgt.value.id, tgt.lineno), (),
                       'dict' if isinstance(o, DictV) else 'list')
 
@@ -3656,6 +3698,8 @@ def fold_cond(c):
             return False
         if isinstance(cont, DictV):
             cont = Tup(tuple(k for k, _ in cont.items))
+            if not cont.items:
+                return False
         if isinstance(cont, Tup) and is_constant_value(item) and all(
                 is_constant_value(x) for x in cont.items):
             return any(x == item for x in cont.items)
